@@ -304,6 +304,18 @@ def classify(bad, trace):
         if m and ((m.group(1), m.group(2)) == ("1", "0") or (m.group(3), m.group(4)) == ("1", "0")):
             side = "enq" if (m.group(1), m.group(2)) == ("1", "0") else "deq"
             return f"D17:fastsignal-state1-unsignaled:{side}"
+        d = next((x for x in trace if x.startswith("D ")), "D")
+        blocked = d.split()[1:]
+        q = re.search(r" q=(\d+)/(\d+)", f)
+        nonempty = bool(q) and int(q.group(1)) < int(q.group(2))
+        if blocked and all(b.startswith("t0:") for b in blocked) and "cwake:deq.c" in blocked[0]:
+            return "deadlock:destructor-waits-for-a-slot-with-no-worker-left"
+        if nonempty and any(b.endswith("cwake:enq.c") for b in blocked) and not any(b.endswith("cwake:deq.c") for b in blocked[1:]):
+            if any(b.endswith("cwake:deq.c") for b in blocked):
+                return "deadlock:queued-job-workers-asleep-pusher-waits"
+            return "deadlock:queued-job-all-workers-asleep"
+        if nonempty and any(b.endswith("cwake:enq.c") for b in blocked):
+            return "deadlock:queued-job-workers-asleep-pusher-waits"
         return "deadlock:other"
     return cls
 
